@@ -26,5 +26,6 @@ def run(ctx, rep):
     site.check_sites(F, rep, "X1", [PC + "decompress_deflate_stream"], 20)
     from . import lin as _lin
     _lin.x4(ctx, rep)
+    _lin.x5(ctx, rep)
     guard.x2(ctx, rep)
     ub.p3(ctx, rep, rule="X3")
